@@ -233,3 +233,56 @@ theorem C07_structs {m : Module} {o : Options} {src : String} {path : Option Str
     rw [(mapM_ok_spec hattrs).1]
 
 end WgslVerif
+
+namespace WgslVerif
+
+/-- a successful `filterMapM vertexInputOf` keeps, in order, exactly the struct arguments -/
+theorem vertexInputs_names {m : Module} :
+    ∀ {args : List (Nat × Option Binding)} {inputs : List VertexInput},
+      args.filterMapM (vertexInputOf m) = .ok inputs →
+      inputs.map (fun i => some i.name) = (args.filter (isStructArg m)).map (fun a => (m.types[a.1]?).bind (·.name)) := by
+  intro args
+  induction args with
+  | nil => intro inputs h; rw [List.filterMapM_nil] at h; injection h with h; subst h; rfl
+  | cons a as ih =>
+    intro inputs h
+    obtain ⟨ob, bs, hfa, hbs, e⟩ := filterMapM_ok_cons h
+    subst e
+    have hsome := vertexInputOf_isSome hfa
+    rw [List.filter_cons, List.map_append, ih hbs]
+    cases ob with
+    | none =>
+      simp only [Option.isSome_none] at hsome
+      simp [← hsome]
+    | some vi =>
+      simp only [Option.isSome_some] at hsome
+      obtain ⟨hname, _⟩ := vertexInputOf_name hfa
+      simp [← hsome, hname]
+
+/-- **C07** (entry helpers): each vertex entry helper yields one buffer layout per struct
+parameter, in parameter order, each driven by its own step-mode parameter; `N` is their number;
+the helper refers to the entry's own `ENTRY_*` constant. -/
+theorem C07_entries {m : Module} {o : Options} {src : String} {path : Option String} {out : Out}
+    (hg : gen m o src path = .ok out) :
+    out.vertexEntries.map (fun v => (v.fnName, v.entryConst, v.n, v.buffers.map (fun b => some b.1),
+        v.params.map (·.1) == v.buffers.map (·.2) ++ (if m.overrides.isEmpty then [] else ["overrides"]))) =
+      (m.entries.filter fun e => e.stage == .vertex).map fun e =>
+        (e.name ++ "_entry", "ENTRY_" ++ e.upper, structParamCount m e,
+          ((e.fn.args.filter fun a => a.2.isNone).filter (isStructArg m)).map (fun a => (m.types[a.1]?).bind (·.name)),
+          true) := by
+  have hp := gen_ok hg
+  have hv := hp.vertexEntries
+  unfold vertexEntries at hv
+  refine mapM_ok_map_eq hv (fun e _ v hve => ?_)
+  obtain ⟨inputs, hin, hve⟩ := Except.bind_ok hve
+  injection hve with hve; subst hve
+  have hlen := vertexEntryStructs_length hin
+  unfold vertexEntryStructs at hin
+  have hnames := vertexInputs_names hin
+  simp only [Prod.mk.injEq, true_and]
+  refine ⟨hlen, ?_, ?_⟩
+  · simpa [List.map_map, Function.comp_def] using hnames
+  · unfold overridesParam
+    by_cases he : m.overrides.isEmpty = true <;> simp [he, List.map_map, Function.comp_def]
+
+end WgslVerif
